@@ -51,6 +51,11 @@ func main() {
 			usage()
 		}
 		os.Exit(replay(repo, verif, os.Args[2]))
+	case "pinned":
+		// prints the function list of the tree under analysis (to regenerate internal/nc/pinned_funcs.txt)
+		for _, n := range nc.ListFuncs(repo) {
+			fmt.Println(n)
+		}
 	case "debug":
 		nc.Debug(repo, os.Args[2:])
 	default:
